@@ -38,7 +38,7 @@ def cases(tier, seed):
             for p in PAIRS_REV:
                 for a0 in ("default", "random"):
                     out.append({"law": law, "sub": "rev", "pair": list(p), "added": True, "angle0": a0, "law_first": (r + len(out)) % 2 == 0})
-            for p in (("fixed_frame", "rigid_body"), ("rigid_body", "rigid_body")):
+            for p in (("fixed_frame", "rigid_body"), ("rigid_body", "rigid_body"), ("moving_frame", "rigid_body"), ("rotating_frame", "rigid_body")):
                 out.append({"law": law, "sub": "rev_late", "pair": list(p)})
     return out
 
@@ -63,6 +63,12 @@ def run_late(spec, ctx):
         for s_ in subs:
             if getattr(s_, "nu", 0):
                 s_.u0 = np.zeros(s_.nu)
+        if mots[0] is not None and (mots[0].moving or mots[0].rotating):
+            # the body rides on the prescribed-motion frame at t0 (no relative velocity)
+            m_, b_ = mots[0], subs[1]
+            A_f = m_.A(t0) if m_.rotating else m_.A0
+            Om_f = A_f @ m_.omega_B(t0) if m_.rotating else np.zeros(3)
+            b_.u0 = np.concatenate([m_.r_t(t0) + np.cross(Om_f, b_.q0[:3] - m_.r(t0)), quat_to_mat(b_.q0[3:]).T @ Om_f])
         axis = int(rng.integers(3))
         angle0 = float(rng.uniform(-3 * np.pi, 3 * np.pi)) if rng.random() < 0.7 else 0.0
         joint = C.Revolute(subs[0], subs[1], axis, angle0=angle0, r_OJ0=rng.normal(size=3), A_IJ0=quat_to_mat(rng.normal(size=4)), name="joint")
@@ -74,9 +80,10 @@ def run_late(spec, ctx):
             model = forcegen.RevoluteModel(system, joint, subs, mots)
             phi = float(rng.uniform(0.3, 1.2)) * (1 if rng.random() < 0.5 else -1)
             joint.l(system.t0, system.q0[joint.qDOF])
-            q1, _ = model.manifold_state(rng, system.t0, phi, 0.0)
-            u1 = np.zeros(system.nu)
-            t1 = system.t0 + (float(rng.uniform(0.1, 1)) if not any(m is not None and (m.moving or m.rotating) for m in mots) else 0.0)
+            # the restart happens LATER: a prescribed-motion partner is somewhere else by then, the new initial configuration is
+            # the closed joint at that time (the body moves with the frame, relative rate zero)
+            t1 = system.t0 + float(rng.uniform(0.1, 1))
+            q1, u1 = model.manifold_state(rng, t1, phi, 0.0, u_ind=np.zeros(6))
             system.set_new_initial_state(q1, u1, t0=t1, options=SolverOptions())
             elem, linfo = forcegen.make_law(rng, spec["law"], joint, l_ref=None)
             system.add(elem)
@@ -98,6 +105,10 @@ def run_late(spec, ctx):
             ctx.violation(f"{spec['law']}@rev_late.E_pot", "element attached after a re-initialisation stores energy in the (new) initial configuration although no reference length was given", {**ex, "E_pot": E})
         ctx.mon("zero_force")
         h = system.h(t, q, u)
+        for c_ in system.contributions:
+            # (a body riding on a rotating frame spins: its own gyroscopic forces are not the element's)
+            if c_ is not elem and hasattr(c_, "h") and hasattr(c_, "B_Theta_C"):
+                h[c_.uDOF] -= c_.h(t, q[c_.qDOF], u[c_.uDOF])
         if np.abs(h).max() > tol * 10:
             ctx.violation(f"{spec['law']}@rev_late.h", "element attached after a re-initialisation exerts a force in the (new) initial configuration although no reference length was given", {**ex, "h": h})
         if system.nla_c and np.abs(system.la_c(t, q, u)).max() > tol:
@@ -211,6 +222,22 @@ def run_case(spec, ctx):
                 ctx.violation(f"{spec['law']}@{spec['sub']}.la_c", "compliance-form force is nonzero in the initial configuration", {**ex, "la_c": la})
             if np.abs(system.la_c0).max() > tol:
                 ctx.violation(f"{spec['law']}@{spec['sub']}.la_c0", "initial compliance force returned by assembly is nonzero", {**ex, "la_c0": system.la_c0})
+        if spec["sub"] == "rev" and "rods" not in det and not moving:
+            # a deep copy of the assembled system is its own system: winding the ORIGINAL joint through full turns afterwards
+            # must not load the copy's element
+            ctx.mon("zero_force")
+            twin = system.deepcopy()
+            model = forcegen.RevoluteModel(system, inter, subs, mots)
+            turns = float(rng.uniform(1.2, 2.6)) * (1.0 if rng.random() < 0.5 else -1.0)
+            qi_ = system.q0[subs[0].my_qDOF] if getattr(subs[0], "nq", 0) and getattr(subs[1], "nq", 0) else None
+            for ph in np.linspace(0.0, turns * 2 * np.pi, int(abs(turns) * 2 * np.pi / 0.6) + 2):
+                qw, _ = model.manifold_state(rng, t, l0 - info.get("angle0", 0.0) * 0 + ph, 0.0, q_ind=qi_)
+                inter.l(t, qw[inter.qDOF])
+            E2 = float(twin.E_pot(t, q)); h2 = twin.h(t, q, u)
+            if abs(E2) > tol * (1 + abs(l0)) or np.abs(h2).max() > tol * 10 or (twin.nla_c and np.abs(twin.la_c(t, q, u)).max() > tol):
+                ctx.violation(f"{spec['law']}@{spec['sub']}.deepcopy", "the element of a deep copy of the assembled system is loaded in its initial configuration after the ORIGINAL joint was wound through full turns",
+                              {**ex, "turns_of_original": turns, "E_pot_copy": E2, "h_copy": h2})
+            ctx.cls("deepcopy:original_wound_afterwards")
         if spec["sub"] == "rev" and spec["angle0"] == "random" and abs(l0 - info["angle0"]) > 1e-9 * (1 + abs(info["angle0"])):
             ctx.violation("Revolute.l", "initial joint angle differs from angle0", {**ex})
     ctx.sig([det], nontrivial=abs(l0) > 1e-6)
